@@ -1,8 +1,9 @@
 // Thin adapters: one object-safe trait over the four REAL string types, so that the generator,
-// the executor and the oracles (strs.rs) are ordinary non-generic code.
+// the executor and the oracles (strs.rs) are ordinary non-generic code.  The adapters are
+// instantiated (macro `config!`) for several arena configurations: both bump directions and
+// minimum alignments 1 / 8 / 16.
 
 pub type Rg = (Bound<usize>, Bound<usize>);
-pub type BumpT<const UP: bool> = Bump<Global, BumpSettings<1, UP>>;
 
 /// `Err(())` = the operation returned an allocation error (fixed capacity exhausted)
 pub type R = Result<(), ()>;
@@ -29,35 +30,101 @@ impl Kind {
     }
 }
 
+/// how the string is constructed
+#[derive(Clone, Copy, PartialEq, Eq, Debug)]
+pub enum Ctor {
+    /// `from_str_in` / `try_from_str_in` (`alloc_str` for a box)
+    FromStr { try_: bool },
+    /// `with_capacity_in(c)` / `try_with_capacity_in(c)` followed by `push_str(text)`
+    WithCap { cap: usize, try_: bool },
+}
+
+/// consuming conversions (the last operation of a sequence)
+#[derive(Clone, Copy, PartialEq, Eq, Debug)]
+pub enum Conv {
+    IntoCstr,
+    IntoStr,
+    IntoBoxedStr,
+    IntoFixedString,
+    IntoBytes,
+    /// `FixedBumpString::into_string(allocator)` followed by a `push` that has to grow
+    IntoString,
+}
+
+impl Conv {
+    pub fn name(self) -> &'static str {
+        match self {
+            Conv::IntoCstr => "into_cstr",
+            Conv::IntoStr => "into_str",
+            Conv::IntoBoxedStr => "into_boxed_str",
+            Conv::IntoFixedString => "into_fixed_string",
+            Conv::IntoBytes => "into_bytes",
+            Conv::IntoString => "into_string",
+        }
+    }
+}
+
+/// what a consuming conversion produced: the bytes right after the conversion, and the bytes
+/// re-read after a further allocation from the same arena (`None`: no further allocation possible)
+pub struct Fin {
+    pub bytes: Vec<u8>,
+    pub reread: Option<Vec<u8>>,
+    pub probe_ok: bool,
+    pub probes_intact: bool,
+}
+
 pub trait StrOps {
     /// the raw bytes of the string (no UTF-8 assumption is made by the caller)
     fn bytes(&self) -> Vec<u8>;
     fn cap(&self) -> usize;
-    fn push(&mut self, _c: char) -> R {
+    fn push(&mut self, _c: char, _t: bool) -> R {
         unreachable!()
     }
-    fn push_str(&mut self, _s: &str) -> R {
+    fn push_str(&mut self, _s: &str, _t: bool) -> R {
         unreachable!()
     }
-    fn insert(&mut self, _i: usize, _c: char) -> R {
+    fn insert(&mut self, _i: usize, _c: char, _t: bool) -> R {
         unreachable!()
     }
-    fn insert_str(&mut self, _i: usize, _s: &str) -> R {
+    fn insert_str(&mut self, _i: usize, _s: &str, _t: bool) -> R {
         unreachable!()
     }
-    fn replace_range(&mut self, _r: Rg, _s: &str) -> R {
+    fn replace_range(&mut self, _r: Rg, _s: &str, _t: bool) -> R {
         unreachable!()
     }
-    fn extend_from_within(&mut self, _r: Rg) -> R {
+    fn extend_from_within(&mut self, _r: Rg, _t: bool) -> R {
+        unreachable!()
+    }
+    fn extend_zeroed(&mut self, _n: usize, _t: bool) -> R {
+        unreachable!()
+    }
+    fn write_str(&mut self, _s: &str) -> R {
+        unreachable!()
+    }
+    fn write_char(&mut self, _c: char) -> R {
         unreachable!()
     }
     fn write_fmt_args(&mut self, _a: std::fmt::Arguments<'_>) -> R {
         unreachable!()
     }
-    fn reserve(&mut self, _n: usize) -> R {
+    /// `Extend<char>` (`by_ref`: `Extend<&char>`)
+    fn extend_chars(&mut self, _cs: &[char], _by_ref: bool) {
         unreachable!()
     }
-    fn reserve_exact(&mut self, _n: usize) -> R {
+    /// `Extend<&str>` (`add_assign`: one `+=` per piece)
+    fn extend_strs(&mut self, _ss: &[&str], _add_assign: bool) {
+        unreachable!()
+    }
+    fn reserve(&mut self, _n: usize, _t: bool) -> R {
+        unreachable!()
+    }
+    fn reserve_exact(&mut self, _n: usize, _t: bool) -> R {
+        unreachable!()
+    }
+    fn shrink_to(&mut self, _n: usize) {
+        unreachable!()
+    }
+    fn shrink_to_fit(&mut self) {
         unreachable!()
     }
     fn remove(&mut self, i: usize) -> char;
@@ -66,11 +133,20 @@ pub trait StrOps {
     fn clear(&mut self);
     fn retain(&mut self, f: &mut dyn FnMut(char) -> bool);
     fn drain(&mut self, r: Rg, take: usize) -> Vec<char>;
-    /// bytes and capacity of the split-off string
-    fn split_off(&mut self, _r: Rg) -> (Vec<u8>, usize) {
+    /// bytes and capacity of the split-off string (kept alive by the adapter, see `others_intact`)
+    fn split_off(&mut self, _r: Rg, _keep: bool) -> (Vec<u8>, usize) {
         unreachable!()
     }
-    fn into_cstr(self: Box<Self>) -> Vec<u8> {
+    /// a further allocation from the SAME arena, filled with `byte`; false = not possible
+    /// (a `MutBumpString` holds the arena exclusively)
+    fn probe(&mut self, _byte: u8, _len: usize) -> bool {
+        false
+    }
+    /// every earlier probe allocation still holds its pattern, every split-off string its bytes
+    fn others_intact(&self) -> Result<(), String> {
+        Ok(())
+    }
+    fn finish(self: Box<Self>, _conv: Conv, _byte: u8, _len: usize) -> Fin {
         unreachable!()
     }
     fn display(&self) -> (String, String);
@@ -87,172 +163,368 @@ fn take_front(d: &mut dyn Iterator<Item = char>, take: usize) -> Vec<char> {
     v
 }
 
+/// probe allocations and split-off strings that must stay untouched
+#[derive(Default)]
+pub struct Others<'a> {
+    probes: Vec<(&'a [u8], u8)>,
+    parts: Vec<(*const u8, usize, Vec<u8>)>,
+}
+
+impl<'a> Others<'a> {
+    fn intact(&self) -> Result<(), String> {
+        for (i, (p, b)) in self.probes.iter().enumerate() {
+            if p.iter().any(|x| x != b) {
+                return Err(format!("probe allocation {i} ({} bytes of {b:#04x}) was overwritten: {}", p.len(), hex(p)));
+            }
+        }
+        for (i, (ptr, len, want)) in self.parts.iter().enumerate() {
+            let got = unsafe { std::slice::from_raw_parts(*ptr, *len) };
+            if got != &want[..] {
+                return Err(format!("split-off string {i} changed from {} to {}", hex(want), hex(got)));
+            }
+        }
+        Ok(())
+    }
+}
+
 macro_rules! common_ops {
     () => {
         fn bytes(&self) -> Vec<u8> {
-            self.0.as_bytes().to_vec()
+            self.s.as_bytes().to_vec()
         }
         fn remove(&mut self, i: usize) -> char {
-            self.0.remove(i)
+            self.s.remove(i)
         }
         fn pop(&mut self) -> Option<char> {
-            self.0.pop()
+            self.s.pop()
         }
         fn truncate(&mut self, n: usize) {
-            self.0.truncate(n)
+            self.s.truncate(n)
         }
         fn clear(&mut self) {
-            self.0.clear()
+            self.s.clear()
         }
         fn retain(&mut self, f: &mut dyn FnMut(char) -> bool) {
-            self.0.retain(|c| f(c))
+            self.s.retain(|c| f(c))
         }
         fn drain(&mut self, r: Rg, take: usize) -> Vec<char> {
-            let mut d = self.0.drain(r);
+            let mut d = self.s.drain(r);
             take_front(&mut d, take)
         }
         fn display(&self) -> (String, String) {
-            (format!("{}", self.0), format!("{:?}", self.0))
+            (format!("{}", self.s), format!("{:?}", self.s))
         }
     };
 }
 
-macro_rules! growable_ops {
+/// the operations that may need memory: `t` selects the `try_` twin
+macro_rules! growing_ops {
     () => {
-        fn push(&mut self, c: char) -> R {
-            self.0.push(c);
-            Ok(())
+        fn push(&mut self, c: char, t: bool) -> R {
+            if t { self.s.try_push(c).map_err(|_| ()) } else { self.s.push(c); Ok(()) }
         }
-        fn push_str(&mut self, s: &str) -> R {
-            self.0.push_str(s);
-            Ok(())
+        fn push_str(&mut self, x: &str, t: bool) -> R {
+            if t { self.s.try_push_str(x).map_err(|_| ()) } else { self.s.push_str(x); Ok(()) }
         }
-        fn insert(&mut self, i: usize, c: char) -> R {
-            self.0.insert(i, c);
-            Ok(())
+        fn insert(&mut self, i: usize, c: char, t: bool) -> R {
+            if t { self.s.try_insert(i, c).map_err(|_| ()) } else { self.s.insert(i, c); Ok(()) }
         }
-        fn insert_str(&mut self, i: usize, s: &str) -> R {
-            self.0.insert_str(i, s);
-            Ok(())
+        fn insert_str(&mut self, i: usize, x: &str, t: bool) -> R {
+            if t { self.s.try_insert_str(i, x).map_err(|_| ()) } else { self.s.insert_str(i, x); Ok(()) }
         }
-        fn replace_range(&mut self, r: Rg, s: &str) -> R {
-            self.0.replace_range(r, s);
-            Ok(())
+        fn replace_range(&mut self, r: Rg, x: &str, t: bool) -> R {
+            if t { self.s.try_replace_range(r, x).map_err(|_| ()) } else { self.s.replace_range(r, x); Ok(()) }
         }
-        fn extend_from_within(&mut self, r: Rg) -> R {
-            self.0.extend_from_within(r);
-            Ok(())
+        fn extend_from_within(&mut self, r: Rg, t: bool) -> R {
+            if t { self.s.try_extend_from_within(r).map_err(|_| ()) } else { self.s.extend_from_within(r); Ok(()) }
+        }
+        fn extend_zeroed(&mut self, n: usize, t: bool) -> R {
+            if t { self.s.try_extend_zeroed(n).map_err(|_| ()) } else { self.s.extend_zeroed(n); Ok(()) }
+        }
+        fn write_str(&mut self, x: &str) -> R {
+            std::fmt::Write::write_str(&mut self.s, x).map_err(|_| ())
+        }
+        fn write_char(&mut self, c: char) -> R {
+            std::fmt::Write::write_char(&mut self.s, c).map_err(|_| ())
         }
         fn write_fmt_args(&mut self, a: std::fmt::Arguments<'_>) -> R {
-            std::fmt::Write::write_fmt(&mut self.0, a).map_err(|_| ())
+            std::fmt::Write::write_fmt(&mut self.s, a).map_err(|_| ())
         }
-        fn into_cstr(self: Box<Self>) -> Vec<u8> {
-            self.0.into_cstr().to_bytes_with_nul().to_vec()
+        fn extend_chars(&mut self, cs: &[char], by_ref: bool) {
+            if by_ref { self.s.extend(cs.iter()) } else { self.s.extend(cs.iter().copied()) }
         }
-        fn reserve(&mut self, n: usize) -> R {
-            self.0.reserve(n);
-            Ok(())
+        fn extend_strs(&mut self, ss: &[&str], add_assign: bool) {
+            if add_assign {
+                for x in ss {
+                    self.s += *x;
+                }
+            } else {
+                self.s.extend(ss.iter().copied())
+            }
         }
-        fn reserve_exact(&mut self, n: usize) -> R {
-            self.0.reserve_exact(n);
-            Ok(())
+        fn reserve(&mut self, n: usize, t: bool) -> R {
+            if t { self.s.try_reserve(n).map_err(|_| ()) } else { self.s.reserve(n); Ok(()) }
         }
     };
 }
 
-pub struct AdBox<'a>(pub BumpBox<'a, str>);
-impl StrOps for AdBox<'_> {
-    common_ops!();
-    fn cap(&self) -> usize {
-        self.0.len()
-    }
-    fn split_off(&mut self, r: Rg) -> (Vec<u8>, usize) {
-        let o = self.0.split_off(r);
-        (o.as_bytes().to_vec(), o.len())
-    }
-}
+macro_rules! config {
+    ($m:ident, $ma:literal, $up:literal) => {
+        pub mod $m {
+            use super::*;
+            pub type B = Bump<Global, BumpSettings<$ma, $up>>;
+            pub type Sc<'a> = BumpScope<'a, Global, BumpSettings<$ma, $up>>;
 
-pub struct AdFixed<'a>(pub FixedBumpString<'a>);
-impl StrOps for AdFixed<'_> {
-    common_ops!();
-    fn cap(&self) -> usize {
-        self.0.capacity()
-    }
-    fn push(&mut self, c: char) -> R {
-        self.0.try_push(c).map_err(|_| ())
-    }
-    fn push_str(&mut self, s: &str) -> R {
-        self.0.try_push_str(s).map_err(|_| ())
-    }
-    fn insert(&mut self, i: usize, c: char) -> R {
-        self.0.try_insert(i, c).map_err(|_| ())
-    }
-    fn insert_str(&mut self, i: usize, s: &str) -> R {
-        self.0.try_insert_str(i, s).map_err(|_| ())
-    }
-    fn replace_range(&mut self, r: Rg, s: &str) -> R {
-        self.0.try_replace_range(r, s).map_err(|_| ())
-    }
-    fn extend_from_within(&mut self, r: Rg) -> R {
-        self.0.try_extend_from_within(r).map_err(|_| ())
-    }
-    fn write_fmt_args(&mut self, a: std::fmt::Arguments<'_>) -> R {
-        std::fmt::Write::write_fmt(&mut self.0, a).map_err(|_| ())
-    }
-    fn reserve(&mut self, n: usize) -> R {
-        self.0.try_reserve(n).map_err(|_| ())
-    }
-    fn split_off(&mut self, r: Rg) -> (Vec<u8>, usize) {
-        let o = self.0.split_off(r);
-        (o.as_bytes().to_vec(), o.capacity())
-    }
-}
+            fn probe_in<'a>(bump: &'a B, o: &mut Others<'a>, byte: u8, len: usize) -> bool {
+                let v = vec![byte; len];
+                let p: &'a [u8] = bump.alloc_slice_copy(&v).into_ref();
+                o.probes.push((p, byte));
+                true
+            }
 
-pub struct AdBump<'a, const UP: bool>(pub BumpString<&'a BumpT<UP>>);
-impl<const UP: bool> StrOps for AdBump<'_, UP> {
-    common_ops!();
-    growable_ops!();
-    fn cap(&self) -> usize {
-        self.0.capacity()
-    }
-    fn split_off(&mut self, r: Rg) -> (Vec<u8>, usize) {
-        let o = self.0.split_off(r);
-        (o.as_bytes().to_vec(), o.capacity())
-    }
-}
+            // ---------------------------------------------------------------- BumpBox<str>
+            pub struct AdBox<'a> {
+                s: BumpBox<'a, str>,
+                bump: &'a B,
+                o: Others<'a>,
+            }
+            impl<'a> StrOps for AdBox<'a> {
+                common_ops!();
+                fn cap(&self) -> usize {
+                    self.s.len()
+                }
+                fn split_off(&mut self, r: Rg, keep: bool) -> (Vec<u8>, usize) {
+                    let part = self.s.split_off(r);
+                    let res = (part.as_bytes().to_vec(), part.len());
+                    if keep {
+                        let p: &'a mut str = part.into_mut();
+                        self.o.parts.push((p.as_ptr(), p.len(), res.0.clone()));
+                    }
+                    res
+                }
+                fn probe(&mut self, byte: u8, len: usize) -> bool {
+                    probe_in(self.bump, &mut self.o, byte, len)
+                }
+                fn others_intact(&self) -> Result<(), String> {
+                    self.o.intact()
+                }
+                fn finish(self: Box<Self>, conv: Conv, byte: u8, len: usize) -> Fin {
+                    let AdBox { s, bump, mut o } = *self;
+                    let out: &'a [u8] = match conv {
+                        Conv::IntoStr => s.into_mut().as_bytes(),
+                        _ => unreachable!(),
+                    };
+                    let bytes = out.to_vec();
+                    let probe_ok = probe_in(bump, &mut o, byte, len);
+                    Fin { bytes, reread: Some(out.to_vec()), probe_ok, probes_intact: o.intact().is_ok() }
+                }
+            }
 
-pub struct AdMut<'a, const UP: bool>(pub MutBumpString<&'a mut BumpT<UP>>);
-impl<const UP: bool> StrOps for AdMut<'_, UP> {
-    common_ops!();
-    growable_ops!();
-    fn cap(&self) -> usize {
-        self.0.capacity()
-    }
-}
+            // ---------------------------------------------------------------- FixedBumpString
+            pub struct AdFixed<'a> {
+                s: FixedBumpString<'a>,
+                bump: &'a B,
+                o: Others<'a>,
+            }
+            impl<'a> StrOps for AdFixed<'a> {
+                common_ops!();
+                growing_ops!();
+                fn cap(&self) -> usize {
+                    self.s.capacity()
+                }
+                fn split_off(&mut self, r: Rg, keep: bool) -> (Vec<u8>, usize) {
+                    let part = self.s.split_off(r);
+                    let res = (part.as_bytes().to_vec(), part.capacity());
+                    if keep {
+                        let p: &'a mut str = part.into_str();
+                        self.o.parts.push((p.as_ptr(), p.len(), res.0.clone()));
+                    }
+                    res
+                }
+                fn probe(&mut self, byte: u8, len: usize) -> bool {
+                    probe_in(self.bump, &mut self.o, byte, len)
+                }
+                fn others_intact(&self) -> Result<(), String> {
+                    self.o.intact()
+                }
+                fn finish(self: Box<Self>, conv: Conv, byte: u8, len: usize) -> Fin {
+                    let AdFixed { s, bump, mut o } = *self;
+                    if conv == Conv::IntoString {
+                        // continue as a BumpString in the same arena: a further allocation, then growth
+                        let mut st: BumpString<&'a B> = s.into_string(bump);
+                        let bytes = st.as_bytes().to_vec();
+                        let probe_ok = probe_in(bump, &mut o, byte, len);
+                        st.push('\u{e9}');
+                        st.reserve(st.capacity() + 1);
+                        let mut re = st.as_bytes().to_vec();
+                        re.truncate(bytes.len());
+                        let grown_ok = st.as_bytes().ends_with("\u{e9}".as_bytes());
+                        return Fin { bytes, reread: Some(re), probe_ok: probe_ok && grown_ok, probes_intact: o.intact().is_ok() };
+                    }
+                    let out: &'a [u8] = match conv {
+                        Conv::IntoStr => s.into_str().as_bytes(),
+                        Conv::IntoBoxedStr => s.into_boxed_str().into_mut().as_bytes(),
+                        Conv::IntoBytes => s.into_bytes().into_boxed_slice().into_ref(),
+                        _ => unreachable!(),
+                    };
+                    let bytes = out.to_vec();
+                    let probe_ok = probe_in(bump, &mut o, byte, len);
+                    Fin { bytes, reread: Some(out.to_vec()), probe_ok, probes_intact: o.intact().is_ok() }
+                }
+            }
 
-/// creates the real string of `kind` holding `text` in a fresh arena and hands it to `f`.
-/// `ctor`: `None` = `from_str_in` / `alloc_str`; `Some(c)` = `with_capacity_in(c)` followed by `push_str(text)`
-/// (a fixed string is always built with `with_capacity_in(c.max(text.len()))`)
-pub fn with_string<const UP: bool>(kind: Kind, text: &str, ctor: Option<usize>, f: &mut dyn FnMut(Box<dyn StrOps + '_>)) {
-    let mut bump: BumpT<UP> = Bump::new();
-    match (kind, ctor) {
-        (Kind::Box, _) => f(Box::new(AdBox(bump.alloc_str(text)))),
-        (Kind::Fixed, c) => {
-            let mut s = FixedBumpString::with_capacity_in(c.unwrap_or(0).max(text.len()), &bump);
-            s.push_str(text);
-            f(Box::new(AdFixed(s)))
+            // ---------------------------------------------------------------- BumpString
+            pub struct AdBump<'a> {
+                s: BumpString<&'a B>,
+                bump: &'a B,
+                o: Others<'a>,
+            }
+            impl<'a> StrOps for AdBump<'a> {
+                common_ops!();
+                growing_ops!();
+                fn cap(&self) -> usize {
+                    self.s.capacity()
+                }
+                fn reserve_exact(&mut self, n: usize, t: bool) -> R {
+                    if t { self.s.try_reserve_exact(n).map_err(|_| ()) } else { self.s.reserve_exact(n); Ok(()) }
+                }
+                fn shrink_to(&mut self, n: usize) {
+                    self.s.shrink_to(n)
+                }
+                fn shrink_to_fit(&mut self) {
+                    self.s.shrink_to_fit()
+                }
+                fn split_off(&mut self, r: Rg, keep: bool) -> (Vec<u8>, usize) {
+                    let part = self.s.split_off(r);
+                    let res = (part.as_bytes().to_vec(), part.capacity());
+                    if keep {
+                        // keep the split-off string alive (it must stay untouched); otherwise it is dropped
+                        // here, which gives its memory back to the arena if it is the newest allocation
+                        let p: &'a mut str = part.into_fixed_string().into_str();
+                        self.o.parts.push((p.as_ptr(), p.len(), res.0.clone()));
+                    }
+                    res
+                }
+                fn probe(&mut self, byte: u8, len: usize) -> bool {
+                    probe_in(self.bump, &mut self.o, byte, len)
+                }
+                fn others_intact(&self) -> Result<(), String> {
+                    self.o.intact()
+                }
+                fn finish(self: Box<Self>, conv: Conv, byte: u8, len: usize) -> Fin {
+                    let AdBump { s, bump, mut o } = *self;
+                    let out: &'a [u8] = match conv {
+                        Conv::IntoCstr => s.into_cstr().to_bytes_with_nul(),
+                        Conv::IntoStr => s.into_str().as_bytes(),
+                        Conv::IntoBoxedStr => s.into_boxed_str().into_mut().as_bytes(),
+                        Conv::IntoFixedString => s.into_fixed_string().into_str().as_bytes(),
+                        Conv::IntoBytes => s.into_bytes().into_boxed_slice().into_ref(),
+                        Conv::IntoString => unreachable!(),
+                    };
+                    let bytes = out.to_vec();
+                    let probe_ok = probe_in(bump, &mut o, byte, len);
+                    Fin { bytes, reread: Some(out.to_vec()), probe_ok, probes_intact: o.intact().is_ok() }
+                }
+            }
+
+            // ---------------------------------------------------------------- MutBumpString
+            pub struct AdMut<'b, 'a> {
+                s: MutBumpString<&'b mut Sc<'a>>,
+                scope: *mut Sc<'a>,
+            }
+            impl<'b, 'a> StrOps for AdMut<'b, 'a> {
+                common_ops!();
+                growing_ops!();
+                fn cap(&self) -> usize {
+                    self.s.capacity()
+                }
+                fn reserve_exact(&mut self, n: usize, t: bool) -> R {
+                    if t { self.s.try_reserve_exact(n).map_err(|_| ()) } else { self.s.reserve_exact(n); Ok(()) }
+                }
+                fn finish(self: Box<Self>, conv: Conv, byte: u8, len: usize) -> Fin {
+                    let AdMut { s, scope } = *self;
+                    let out: &'a [u8] = match conv {
+                        Conv::IntoCstr => s.into_cstr().to_bytes_with_nul(),
+                        Conv::IntoStr => s.into_str().as_bytes(),
+                        Conv::IntoBoxedStr => s.into_boxed_str().into_mut().as_bytes(),
+                        Conv::IntoBytes => s.into_bytes().into_boxed_slice().into_ref(),
+                        _ => unreachable!(),
+                    };
+                    let bytes = out.to_vec();
+                    // the string (and with it the exclusive borrow of the scope) is gone: allocate again
+                    let scope: &mut Sc<'a> = unsafe { &mut *scope };
+                    let v = vec![byte; len];
+                    let p: &'a [u8] = scope.alloc_slice_copy(&v).into_ref();
+                    let probes_intact = p.iter().all(|x| *x == byte);
+                    Fin { bytes, reread: Some(out.to_vec()), probe_ok: true, probes_intact }
+                }
+            }
+
+            /// creates the real string of `kind` holding `text` in a fresh arena and hands it to `f`
+            pub fn with_string(kind: Kind, text: &str, ctor: Ctor, f: &mut dyn FnMut(Box<dyn StrOps + '_>)) {
+                let mut bump: B = Bump::new();
+                match kind {
+                    Kind::Box => {
+                        let b = &bump;
+                        f(Box::new(AdBox { s: b.alloc_str(text), bump: b, o: Others::default() }))
+                    }
+                    Kind::Fixed => {
+                        let b = &bump;
+                        let (c, t) = match ctor {
+                            Ctor::WithCap { cap, try_ } => (cap.max(text.len()), try_),
+                            Ctor::FromStr { try_ } => (text.len(), try_),
+                        };
+                        let mut s = if t { FixedBumpString::try_with_capacity_in(c, b).unwrap() } else { FixedBumpString::with_capacity_in(c, b) };
+                        s.push_str(text);
+                        f(Box::new(AdFixed { s, bump: b, o: Others::default() }))
+                    }
+                    Kind::Bump => {
+                        let b = &bump;
+                        let s = match ctor {
+                            Ctor::FromStr { try_: false } => BumpString::from_str_in(text, b),
+                            Ctor::FromStr { try_: true } => BumpString::try_from_str_in(text, b).unwrap(),
+                            Ctor::WithCap { cap, try_ } => {
+                                let mut s = if try_ { BumpString::try_with_capacity_in(cap, b).unwrap() } else { BumpString::with_capacity_in(cap, b) };
+                                s.push_str(text);
+                                s
+                            }
+                        };
+                        f(Box::new(AdBump { s, bump: b, o: Others::default() }))
+                    }
+                    Kind::Mut => {
+                        let scope: &mut Sc<'_> = bump.as_mut_scope();
+                        let ptr: *mut Sc<'_> = scope;
+                        let sc: &mut Sc<'_> = unsafe { &mut *ptr };
+                        let s = match ctor {
+                            Ctor::FromStr { try_: false } => MutBumpString::from_str_in(text, sc),
+                            Ctor::FromStr { try_: true } => MutBumpString::try_from_str_in(text, sc).unwrap(),
+                            Ctor::WithCap { cap, try_ } => {
+                                let c = cap.max(text.len());
+                                let mut s = if try_ { MutBumpString::try_with_capacity_in(c, sc).unwrap() } else { MutBumpString::with_capacity_in(c, sc) };
+                                s.push_str(text);
+                                s
+                            }
+                        };
+                        f(Box::new(AdMut { s, scope: ptr }))
+                    }
+                }
+            }
         }
-        (Kind::Bump, None) => f(Box::new(AdBump::<UP>(BumpString::from_str_in(text, &bump)))),
-        (Kind::Bump, Some(c)) => {
-            let mut s = BumpString::with_capacity_in(c, &bump);
-            s.push_str(text);
-            f(Box::new(AdBump::<UP>(s)))
-        }
-        (Kind::Mut, None) => f(Box::new(AdMut::<UP>(MutBumpString::from_str_in(text, &mut bump)))),
-        (Kind::Mut, Some(c)) => {
-            let mut s = MutBumpString::with_capacity_in(c.max(text.len()), &mut bump);
-            s.push_str(text);
-            f(Box::new(AdMut::<UP>(s)))
-        }
+    };
+}
+
+config!(up1, 1, true);
+config!(down1, 1, false);
+config!(down8, 8, false);
+config!(up16, 16, true);
+
+pub const CONFIGS: [&str; 4] = ["up1", "down1", "down8", "up16"];
+
+pub fn with_config(cfg: usize, kind: Kind, text: &str, ctor: Ctor, f: &mut dyn FnMut(Box<dyn StrOps + '_>)) {
+    match cfg {
+        0 => up1::with_string(kind, text, ctor, f),
+        1 => down1::with_string(kind, text, ctor, f),
+        2 => down8::with_string(kind, text, ctor, f),
+        _ => up16::with_string(kind, text, ctor, f),
     }
 }
